@@ -79,8 +79,12 @@ def parse_rust():
             fns[name] = (rust_type(ret), alist)
         em = re.search(r"#\[open_enum\]\s*#\[repr\((\w+)\)\](?:\s*#\[[^\]]*\])*\s*pub enum CProcfsBase\s*\{(.*?)\}", src, flags=re.S)
         if em:
-            if em.group(1) != "u64":
+            # the width of the enum is the width of the argument the exported functions read
+            width = {"u64": "enum64", "u32": "u32", "i32": "i32", "c_int": "i32", "c_uint": "u32", "usize": "usize"}.get(em.group(1))
+            if width is None:
                 raise ParseError(f"CProcfsBase repr is {em.group(1)}")
+            if width != "enum64":
+                fns = {n: (width if r == "enum64" else r, [width if a == "enum64" else a for a in al]) for n, (r, al) in fns.items()}
             for v in re.finditer(r"(\w+)\s*=\s*(0x[0-9A-Fa-f_]+|\d+)", em.group(2)):
                 enums[v.group(1)] = int(v.group(2).replace("_", ""), 0)
         sm = re.search(r"#\[repr\(([^\]]*)\)\]\s*pub struct CError\s*\{(.*?)\}", src, flags=re.S)
@@ -120,8 +124,13 @@ def parse_header():
     for v in re.finditer(r"(PATHRS_\w+)\s*=\s*(0x[0-9A-Fa-f]+|\d+)", em.group(1)):
         enums[v.group(1)] = int(v.group(2), 0)
     td = re.search(r"typedef\s+(\w+)\s+pathrs_proc_base_t\s*;", src)
-    if not td or td.group(1) != "uint64_t":
-        raise ParseError("pathrs_proc_base_t is not typedef'd to uint64_t")
+    if not td:
+        raise ParseError("pathrs_proc_base_t is not a typedef")
+    hwidth = {"uint64_t": "enum64", "uint32_t": "u32", "int": "i32", "size_t": "usize"}.get(td.group(1))
+    if hwidth is None:
+        raise ParseError(f"pathrs_proc_base_t is typedef'd to {td.group(1)}")
+    if hwidth != "enum64":
+        fns = {n: (hwidth if r == "enum64" else r, [hwidth if a == "enum64" else a for a in al]) for n, (r, al) in fns.items()}
     sm = re.search(r"typedef struct\s*(__CBINDGEN_ALIGNED\((\d+)\))?\s*\{(.*?)\}\s*pathrs_error_t\s*;", src, flags=re.S)
     if not sm:
         raise ParseError("pathrs_error_t not found in header")
